@@ -69,6 +69,26 @@ def extractWord (st : Stream) : Stream :=
     | [] => ⟨[], true, true⟩
     | t => ⟨skipWord t, false, (skipWord t).isEmpty⟩
 
+/-- `istr >> n`, `n` an `int` (`unsigned = false`) or a `std::size_t` (`unsigned = true`): libstdc++ `num_get::_M_extract_int` in base 10:
+    skip white space (end of text there: failbit|eofbit); optional sign (also for unsigned types: the value is negated modulo 2^64);
+    the maximal run of digits; failbit iff there is no digit or the value does not fit (`int`: extracted as `long`, then
+    `< INT_MIN` / `> INT_MAX` set failbit; `size_t`: magnitude ≥ 2^64); eofbit iff the scan ran into the end of the text -/
+def extractInt (unsigned : Bool) (st : Stream) : Stream :=
+  if st.fail then st
+  else
+    match skipWs st.rest with
+    | [] => ⟨[], true, true⟩
+    | t =>
+      let neg := match t with
+        | '-' :: _ => true
+        | _ => false
+      let t1 := skipSign t
+      let t2 := skipDigits t1
+      let has := decide (t2.length < t1.length)
+      let v := digitsVal (t1.take (t1.length - t2.length))
+      let fits := if unsigned then decide (v < 2 ^ 64) else if neg then decide (v ≤ 2 ^ 31) else decide (v < 2 ^ 31)
+      ⟨t2, !(has && fits), t2.isEmpty⟩
+
 /-- `pure_data`: the early returns in the generated order, then the trailing-junk test
     (`istr >> j` on a failed stream extracts nothing, so `if (istr >> j)` is false there) -/
 def pureDataFrom : List PdTest → Stream → Bool
@@ -82,12 +102,14 @@ def pureData (st : Stream) : Bool := pureDataFrom pureDataTests st
 def Stream.Inv (st : Stream) : Prop := st.eof = true → st.rest = []
 
 /-- one `>> x` of a chain `istr >> a >> b >> …` -/
-inductive Extraction where | double | word
+inductive Extraction where | double | word | int | size
   deriving DecidableEq, Repr
 
 def Extraction.run : Extraction → Stream → Stream
   | .double => extractDouble
   | .word => extractWord
+  | .int => extractInt false
+  | .size => extractInt true
 
 /-- `pure_data(istr >> f)` on the text of an element -/
 def numberOk (s : List Char) : Bool := pureData (extractDouble (Stream.ofText s))
